@@ -774,6 +774,39 @@ pub fn exec_op(w: &W, lp: Option<&mut Option<EventLoop<'static, ()>>>, op: &Valu
             drop(wb);
             done!(r)
         }
+        "push_many" | "send_many" => {
+            // n items at once (m0+1 ..= m0+n): more than the per-dispatch limits of the real code (1024)
+            let m0 = op["m"].as_i64().unwrap_or(0);
+            let n = op["d"].as_i64().unwrap_or(0);
+            if name == "push_many" {
+                let st = w.borrow().srcs.get(&s.unwrap()).and_then(|x| x.stream.clone());
+                let Some(st) = st else { done!("nohandle") };
+                let waker = {
+                    let mut b = st.borrow_mut();
+                    for i in 1..=n {
+                        b.queue.push_back(m0 + i);
+                    }
+                    b.waker.take()
+                };
+                if let Some(wk) = waker {
+                    wk.wake();
+                }
+                done!("ok")
+            } else {
+                let wb = w.borrow();
+                let src = wb.srcs.get(&s.unwrap()).unwrap();
+                let Some(tx) = src.senders.first() else { drop(wb); done!("nohandle") };
+                let mut r = "ok";
+                for i in 1..=n {
+                    if tx.send(m0 + i).is_err() {
+                        r = "disconnected";
+                        break;
+                    }
+                }
+                drop(wb);
+                done!(r)
+            }
+        }
         "push" | "end_stream" => {
             let m = op["m"].as_i64().unwrap_or(0);
             let st = w.borrow().srcs.get(&s.unwrap()).and_then(|x| x.stream.clone());
